@@ -773,3 +773,65 @@ func (eng *Engine) inventoryImmutable(allowedPkgs map[string]bool) []string {
 	sort.Strings(bad)
 	return bad
 }
+
+// frozenTypeOfKey: "F$pkg.T$f" -> "pkg.T" if T is declared frozen.
+func (eng *Engine) frozenTypeOfKey(k string) string {
+	if len(eng.specs.Frozen) == 0 || !strings.HasPrefix(k, "F$") {
+		return ""
+	}
+	rest := k[2:]
+	i := strings.LastIndex(rest, "$")
+	if i < 0 {
+		return ""
+	}
+	if eng.specs.Frozen[rest[:i]] {
+		return rest[:i]
+	}
+	return ""
+}
+
+// allocatesType: fn contains a heap allocation of struct type named pkg.T
+func (eng *Engine) allocatesType(fn *ssa.Function, name string) bool {
+	for _, b := range fn.Blocks {
+		for _, ins := range b.Instrs {
+			if a, ok := ins.(*ssa.Alloc); ok {
+				if n, ok := a.Type().(*types.Pointer).Elem().(*types.Named); ok && n.Obj().Pkg() != nil && n.Obj().Pkg().Name()+"."+n.Obj().Name() == name {
+					return true
+				}
+			}
+		}
+	}
+	return false
+}
+
+// inventoryFrozen: every store to a field of a frozen type targets an object allocated by the same function.
+func (eng *Engine) inventoryFrozen() []string {
+	var bad []string
+	for _, f := range eng.funcs {
+		for _, b := range f.Blocks {
+			for _, ins := range b.Instrs {
+				st, ok := ins.(*ssa.Store)
+				if !ok {
+					continue
+				}
+				fa, ok := st.Addr.(*ssa.FieldAddr)
+				if !ok {
+					continue
+				}
+				pt, ok := fa.X.Type().Underlying().(*types.Pointer)
+				if !ok {
+					continue
+				}
+				n, ok := pt.Elem().(*types.Named)
+				if !ok || n.Obj().Pkg() == nil || !eng.specs.Frozen[n.Obj().Pkg().Name()+"."+n.Obj().Name()] {
+					continue
+				}
+				if _, isAlloc := fa.X.(*ssa.Alloc); !isAlloc {
+					bad = append(bad, fmt.Sprintf("%s: store to field of %s outside its allocation at %s", fnKey(f), n.Obj().Name(), eng.fset.Position(st.Pos())))
+				}
+			}
+		}
+	}
+	sort.Strings(bad)
+	return bad
+}
